@@ -2,24 +2,28 @@
    Statements in the form used by Properties/C20.v; the work is in Proofs/Heap*.v. *)
 From Coq Require Import List Arith Bool QArith Lia Permutation.
 Import ListNotations.
-From PD Require Import Model.Heap Proofs.Heap Proofs.HeapWf Proofs.HeapSep Proofs.HeapNI Proofs.HeapRefine
+From PD Require Import Model.Heap Proofs.Heap Proofs.HeapWf Proofs.HeapSep Proofs.HeapTimes Proofs.HeapNI Proofs.HeapRefine
   Proofs.HeapStats.
 Local Open Scope nat_scope.
 
 (* ---- invariants of all heaps reachable from the empty heap ---- *)
 
 Theorem reachable_wf_aligned os : wf (run emp os) /\ Aligned (run emp os).
-Proof. split; [apply wf_run, wf_emp|apply aligned_run, Aligned_emp]. Qed.
+Proof. split; [apply wf_run, wf_emp|apply aligned_run; [apply wf_emp|apply Aligned_emp]]. Qed.
 
-(* times and members have equal length, for every time course and every track, after ANY operation
-   sequence (default flags or not, failing operations included) *)
+(* times and members have equal length, for every time course and every track, and no times list
+   object is held twice (by two collections, or by a collection and a caller variable), after ANY
+   operation sequence (default flags or not, failing operations included) *)
 Theorem times_members_aligned os :
-  (forall t tc, nth_error (tcs (run emp os)) t = Some tc -> length (tc_times tc) = length (tc_ems tc)) /\
-  (forall k tr, nth_error (trs (run emp os)) k = Some tr -> length (tr_times tr) = length (tr_drops tr)).
+  let h := run emp os in
+  (forall t tc, nth_error (tcs h) t = Some tc -> length (tc_times h tc) = length (tc_ems tc)) /\
+  (forall k tr, nth_error (trs h) k = Some tr -> length (tr_times h tr) = length (tr_drops tr)) /\
+  NoDup (tl_roots h).
 Proof.
-  destruct (aligned_run os emp Aligned_emp) as [A1 A2]. split.
+  destruct (reachable_wf_aligned os) as [_ (S & A1 & A2)]. cbn zeta. split; [|split].
   - intros t tc H. eapply Forall_nth_error in H; [|exact A1]. exact H.
   - intros k tr H. eapply Forall_nth_error in H; [|exact A2]. exact H.
+  - exact S.
 Qed.
 
 (* a failing operation on a time course or track leaves both of its lists untouched *)
@@ -93,7 +97,8 @@ Qed.
 Definition vB : value := mkV 1 [1%Q; 2%Q] 2%Q [(1#2)%Q].
 Definition demo_ops : list op :=
   [ONew vA; ONew vB; OEmNew; OAppend 0 0 true false; OAppend 0 1 true false; OSlice 0 0 1;
-   OTcNew [0; 1] None; OTrNew [0] None; OTrAppend 0 0 None; OLink 1; OSetH 0 2 (5#1)%Q; OSetM 0 0 2 (7#1)%Q].
+   OTcNew [0; 1] None; OTrNew [0] None; OTrAppend 0 0 None; OLink 1; OSetH 0 2 (5#1)%Q; OSetM 0 0 2 (7#1)%Q;
+   OTlistNew [(1#2)%Q]; OTrNewL [1] 0; OTcCopy 0; OTcAppend 1 0 None true; OTlistAppend 0 (9#1)%Q].
 
 Lemma demo_ops_default : Forall (fun o => list_op o = true) demo_ops.
 Proof. repeat constructor. Qed.
@@ -103,5 +108,9 @@ Lemma demo_facts :
   abs_em h 0 = Some [mkV 0 [0%Q; 0%Q] (7#1)%Q []; vB] /\
   abs_hnd h 0 = Some (mkV 0 [0%Q; 0%Q] (5#1)%Q []) /\
   abs_em h 1 = Some [vA] /\
-  length (ems h) = 4 /\ length (tcs h) = 1 /\ length (trs h) = 1 /\ length (arrs h) = 1.
+  length (ems h) = 7 /\ length (tcs h) = 2 /\ length (trs h) = 2 /\ length (arrs h) = 1 /\
+  option_map fst (nth_error (s_tcs (abs h)) 0) = Some [0%Q; 1%Q] /\
+  option_map (fun x => length (fst x)) (nth_error (s_tcs (abs h)) 1) = Some 3 /\
+  option_map fst (nth_error (s_trs (abs h)) 1) = Some [(1#2)%Q] /\
+  s_tvars (abs h) = [[(1#2)%Q; (9#1)%Q]].
 Proof. vm_compute. repeat split; reflexivity. Qed.
